@@ -1323,3 +1323,10 @@ package participle
 
 //@ func (*Parser[G]).String [C14]
 //@   requires p != nil && has(p.typeNodes, p.rootType) && wf(p.typeNodes[p.rootType])
+
+// ParserForProduction: the parser for a production is the same parser (lexer, elision set, lookahead, mappers,
+// case-insensitive set, node table) looked at from another root (C10, C01, C15: it behaves as the original does).
+//@ func ParserForProduction [C10 C01 C15]
+//@   requires parser != nil
+//@   pure
+//@   ensures result1 == nil ==> result0 != nil && result0.parserOptions == parser.parserOptions
